@@ -545,6 +545,7 @@ func buildShapes() {
 	emit(erase(leafIdentifierEveryLen()))
 	emit(erase(leafByteArrayEveryLen()))
 	emit(erase(leafPluginMessageDataEveryLen()))
+	emit(erase(leafBitSetEveryLen()))
 	id := leafIdentifier()
 	id.name = "Identifier" // type alias of String: registered under its own name with its own alphabet
 	emit(erase(id))
